@@ -9,7 +9,8 @@ func moreGens() []struct {
 		name string
 		fn   func() string
 	}{
-		{"Encoding.v", genEncoding}, // C18
-		{"Conv.v", genConv},         // C02
+		{"Encoding.v", genEncoding},   // C18
+		{"Conv.v", genConv},           // C02
+		{"EdiConsts.v", genEdiConsts}, // C07
 	}
 }
